@@ -24,13 +24,13 @@ import (
 func init() {
 	core.Register(&core.Monitor{
 		ID: "C41",
-		Rule: "candidate sets of 1..6 tips drawn with repetition from a small pool (block numbers base+{0,1,2} and 0 / 2^64-1, VRF outputs empty / shared-prefix 32-byte / other lengths, window slot lists placed around forkSlot and forkSlot+window incl. the uint64 edge, legacy densities from a 4-value pool) so that ties at every level are frequent; " +
+		Rule: "candidate sets of 1..6 tips drawn with repetition from a small pool (block numbers base+{0,1,2} and 0 / 2^64-1, VRF outputs of 0/1/2/31/32/33/64 bytes (shared prefixes, leading zero bytes, numerically equal values of different lengths, neighbours across a length boundary), window slot lists placed around forkSlot and forkSlot+window incl. the uint64 edge, legacy densities from a 4-value pool) so that ties at every level are frequent; " +
 			"selector k in {0,1,3,2160,2^64-1}, window in {0,1,10,129600,2^64-1}, tip height around forkBlock+k+{-1,0,1,2}; tip kinds: library SimpleChainTip / WindowedChainTip and harness-defined ChainTip implementations; " +
 			"homogeneous sets (all simple, all windowed with a window, all windowed without) carry the main keys, heterogeneous sets are judged under C41:mixed-tip-kinds:*; GenesisSelector is driven with harness and SimpleChainFragment fragments. " +
 			"Every set: full comparison matrix, all triples, all permutations (<= 720) through Preferred*. Non-trivial: >= 3 candidates; distinct by written-out (selector, fork, tip, set)",
 		MinNontrivial: 1500,
 		Assumptions: []string{
-			"VRF outputs of different lengths are compared as the library does (big-endian numbers); the reference ordering is only asserted for equal-length or empty outputs",
+			"a VRF output is a big-endian unsigned number of any length (0x01 and 0x0001 tie, 0xff is below 0x0100); an empty / nil output is a missing VRF and is the least preferred, two missing outputs tie",
 			"the legacy density of a tip is the float64 its Density method reports (ChainTip.Density returns float64); NaN densities are not generated",
 			"nil candidates are ordered below every tip (documented in Compare); typed nil pointers are not generated",
 			"for GenesisSelector the window count is the value the fragment reports; the property is the ordering built on it",
@@ -188,7 +188,13 @@ func sgn(x int) int {
 	return 0
 }
 
-// refVRF: +1 if a preferred. judged=false for differing non-zero lengths.
+// refVRF: +1 if a is preferred. A VRF output is a big-endian unsigned
+// number and the lower number wins, whatever the lengths of the two byte
+// strings (a 64-byte TPraos output against a 32-byte Praos output, leading
+// zero bytes): strip leading zeros, then the shorter string is the smaller
+// number, equal lengths compare bytewise. An empty / nil output is a missing
+// VRF and is the least preferred (two missing outputs tie) - the convention of
+// the code under test. Written without math/big.
 func refVRF(a, b []byte) (int, bool) {
 	switch {
 	case len(a) == 0 && len(b) == 0:
@@ -197,8 +203,19 @@ func refVRF(a, b []byte) (int, bool) {
 		return -1, true
 	case len(b) == 0:
 		return 1, true
-	case len(a) != len(b):
-		return 0, false
+	}
+	strip := func(x []byte) []byte {
+		for len(x) > 0 && x[0] == 0 {
+			x = x[1:]
+		}
+		return x
+	}
+	a, b = strip(a), strip(b)
+	if len(a) != len(b) {
+		if len(a) < len(b) {
+			return 1, true
+		}
+		return -1, true
 	}
 	return -bytes.Compare(a, b), true
 }
@@ -254,6 +271,13 @@ func init() {
 		f(b)
 		return b
 	}
+	cat := func(parts ...[]byte) []byte {
+		var out []byte
+		for _, p := range parts {
+			out = append(out, p...)
+		}
+		return out
+	}
 	vrfPool = [][]byte{
 		nil,
 		{},
@@ -264,10 +288,21 @@ func init() {
 		v(func(b []byte) { b[0] = 0xff }),
 		make([]byte, 32),
 		bytes.Repeat([]byte{0xff}, 32),
+		// mixed lengths: 1, 2, 31, 33, 64 bytes
 		{0x00},
 		{0x01},
-		append([]byte{0x00}, base...), // 33 bytes, numerically equal to base
-		bytes.Repeat([]byte{0x01}, 64),
+		{0x00, 0x01},                        // numerically equal to 0x01
+		{0xff},                              // adjacent across a length boundary ...
+		{0x01, 0x00},                        // ... 0xff < 0x0100 although "ff" > "0100" bytewise
+		{0x00, 0xff},                        // == 0xff
+		base[1:],                            // 31 bytes: lower than base (5a.. dropped), bytewise equal prefix
+		cat([]byte{0x00}, base),             // 33 bytes, numerically equal to base
+		cat([]byte{0x00}, base[1:]),         // 32 bytes with a leading zero == the 31-byte value
+		cat([]byte{0x01}, make([]byte, 32)), // 33 bytes: 2^256, just above ff..ff (32 bytes)
+		cat(make([]byte, 32), base),         // 64 bytes (TPraos size) numerically equal to base
+		cat(make([]byte, 31), []byte{0x01}, base), // 64 bytes, above every 32-byte value
+		bytes.Repeat([]byte{0x01}, 64),            // 64 bytes, bytewise below base, numerically far above
+		make([]byte, 64),                          // 64-byte zero == 32-byte zero == 0x00
 	}
 }
 
